@@ -540,6 +540,28 @@ fn gen_outbound(kind: OutKind, ch: &mut Choices) -> Plan {
         }
     }
     if kind == OutKind::C06 && ch.chance(1, 3) {
+        // sends that fail locally (in or before the encoder) next to exchanges that are outstanding:
+        // whatever they registered must be withdrawn without touching the others
+        let n = 1 + ch.choose(2);
+        for _ in 0..n {
+            let op = if !role.is_server() && ch.chance(2, 3) { AppOp::BadSubscribe { unsub: ch.chance(1, 2) } } else { AppOp::BadTopicTooLong { qos: 1 } };
+            let mut ops = vec![op];
+            if ch.chance(1, 2) {
+                ops.push(AppOp::PubQ1 { len: 2, pid: None });
+            }
+            plan.senders.push(ops);
+        }
+    }
+    if matches!(kind, OutKind::C06 | OutKind::C08) && v5 && ch.chance(1, 4) {
+        // the peer's Maximum Packet Size makes the larger sends fail locally (over-size), the smaller ones pass
+        let m = *ch.pick(&[24u32, 32, 48]);
+        match role {
+            Role::S5 => plan.peer.connect.props.push((39, PropVal::U32(m))),
+            _ => plan.peer.connack_props.push((39, PropVal::U32(m))),
+        }
+        plan.tags.push(format!("peer-max-packet:{m}"));
+    }
+    if kind == OutKind::C06 && ch.chance(1, 3) {
         // caller-chosen ids, possibly colliding
         let mut ops = Vec::new();
         for _ in 0..(1 + ch.choose(2)) {
@@ -677,6 +699,9 @@ fn gen_c12(ch: &mut Choices) -> Plan {
     plan.cfg.max_payload_buf = *ch.pick(&[32 * 1024usize, 64]);
     plan.p_immediate = *ch.pick(&[0u32, 300]);
     plan.w_payload = *ch.pick(&[[1u32, 0, 0], [3, 2, 0]]);
+    // some handlers stay busy until the closing phase: the scripted part goes quiet with the limiter
+    // part-filled, and whatever the completed handlers freed must have been used
+    plan.p_hold = *ch.pick(&[0u32, 0, 350, 600]);
     // v5: does the peer respect the advertised Receive Maximum?
     let respect = ch.chance(2, 3);
     let n = 2 + ch.choose(9);
@@ -705,6 +730,30 @@ fn gen_c12(ch: &mut Choices) -> Plan {
         if qos == 2 && ch.chance(2, 3) {
             plan.peer.script.push(step(Pkt::PubRel(Ack::ok(pid.unwrap())), ver, Pre::SawPubRec(pid.unwrap(), 1)));
         }
+    }
+    if role.is_server() && ch.chance(1, 4) {
+        // motif: the byte limit equals the size of the first k packets exactly, so that completions take
+        // the total from above the limit down to exactly the limit (the boundary of the limiter's
+        // wake-up and availability conditions); one more packet overflows it, one or two wait unread
+        plan.peer.script.clear();
+        let k = 1 + ch.choose(3) as usize;
+        let total = k + 2 + ch.choose(2) as usize;
+        let mut sizes = Vec::new();
+        for i in 0..total as u32 {
+            let qos = ch.choose(2) as u8;
+            let pid = if qos > 0 { Some(10 + i as u16) } else { None };
+            let len = *ch.pick(&[0usize, 7, 30, 90]);
+            let mut p = mk_publish(ver, ch, i, qos, pid, len);
+            p.dup = false;
+            let st = step(Pkt::Publish(p), ver, Pre::Connected);
+            sizes.push(rc::fixed_header(&st.bytes).ok().flatten().map_or(0, |h| h.1));
+            plan.peer.script.push(st);
+        }
+        plan.cfg.max_receive_size = sizes[..k].iter().sum::<usize>().max(1);
+        plan.cfg.max_receive = 0;
+        plan.p_immediate = 0;
+        plan.p_hold = *ch.pick(&[300u32, 500, 700]);
+        plan.tags.push(format!("motif:exact-fit:{k}"));
     }
     plan.ending = Ending::Settle;
     plan.max_steps = 15_000;
